@@ -46,6 +46,8 @@ def run_demo(seed, wt):
         rc, out = sh("go run . zz_seed_demo.py", wt)
         os.remove(dst)
         exp = os.path.join(seed, "expected_output.txt")
+        if not os.path.exists(exp):
+            exp = os.path.join(seed, "expected.txt")
         if os.path.exists(exp):
             want = open(exp).read().strip()
             got = "\n".join(l for l in out.strip().split("\n") if not l.startswith("exit status"))
@@ -82,7 +84,7 @@ def main():
     dst = os.path.join("/verif/seeded", name)
     os.makedirs(dst, exist_ok=True)
     for f in os.listdir(seed):
-        if f in ("patch.diff", "demo.py", "demo_test.go", "expected_output.txt", "README.md"):
+        if f in ("patch.diff", "demo.py", "demo_test.go", "expected_output.txt", "expected.txt", "README.md"):
             shutil.copy(os.path.join(seed, f), os.path.join(dst, f))
     readme = open(os.path.join(seed, "README.md")).read() if os.path.exists(os.path.join(seed, "README.md")) else ""
     needs = ""
